@@ -571,8 +571,11 @@ func (mw *TinkEncryptionPartStoreMiddleware) GetPart(ctx context.Context, tx dat
 			return nil, err
 		}
 
-		// Return a composite reader that wraps the decrypt reader with the underlying closer
-		return &compositeReadCloser{decryptReader, closerFunc(closeUnderlying)}, nil
+		// Return a composite reader that wraps the decrypt reader with the underlying closer.
+		// tink's streaming reader serves its last segment again when it is read after
+		// EOF; a reader above (e.g. a second tink layer) that asks once more must keep
+		// getting EOF, so the first error is made sticky.
+		return &compositeReadCloser{&stickyErrReader{r: decryptReader}, closerFunc(closeUnderlying)}, nil
 	})
 
 	return ioutils.NewReadCloserWithCloseHook(lazyReader, closeUnderlying), nil
@@ -649,6 +652,24 @@ type closerFunc func() error
 
 func (f closerFunc) Close() error {
 	return f()
+}
+
+// stickyErrReader returns the first error of the wrapped reader (io.EOF
+// included) for every later Read call.
+type stickyErrReader struct {
+	r   io.Reader
+	err error
+}
+
+func (s *stickyErrReader) Read(p []byte) (int, error) {
+	if s.err != nil {
+		return 0, s.err
+	}
+	n, err := s.r.Read(p)
+	if err != nil {
+		s.err = err
+	}
+	return n, err
 }
 
 // compositeReadCloser combines a Reader with a Closer
